@@ -399,6 +399,62 @@ else:
 tpx.stop()
 evilf.stop(); mutef.stop()
 
+# ---- (vi) long runs of datagrams that a UDP reader has to skip, with nothing acceptable in between: whatever the
+#      reader keeps per skipped datagram (a stack frame, a queue slot) is the peer's to grow. SOCKS5 UDP association:
+#      fragments (FRAG != 0), datagrams too short for a header, datagrams with an unknown address type, datagrams from
+#      another socket than the client's; reverse UDP session: datagrams of other clients are not its business. Then
+#      one good datagram must be echoed
+px = start()
+uo = UdpOrigin()
+RUN = 20000 if tier() == 'thorough' else 4000
+def skip_run(kind):
+    s, r = socks5_connect(ports['socks'], '0.0.0.0', 0, cmd=3, timeout=5)
+    if r['rep'] != 0 or len(r['reply']) < 10:
+        return 'no-association'
+    relay = ('127.0.0.1', struct.unpack('>H', r['reply'][8:10])[0])
+    u = socket.socket(socket.AF_INET, socket.SOCK_DGRAM); u.bind(('127.0.0.1', 0)); u.settimeout(2)
+    other = socket.socket(socket.AF_INET, socket.SOCK_DGRAM); other.bind(('127.0.0.1', 0))
+    good = b'\0\0\0' + socks5_addr('127.0.0.1', uo.port)
+    u.sendto(good + b'first', relay)      # the association learns its client from the first datagram
+    try:
+        u.recvfrom(2000)
+    except OSError:
+        return 'first-datagram-not-echoed'
+    dg = {'fragments': b'\0\0\x01' + socks5_addr('127.0.0.1', uo.port) + b'x',
+          'short': b'\0\0',
+          'unknown-atyp': b'\0\0\0\x09\x01\x02\x03\x04\x00\x09x',
+          'foreign-sender': good + b'not-yours'}[kind]
+    snd = other if kind == 'foreign-sender' else u
+    for i in range(RUN):
+        snd.sendto(dg, relay)
+        if i % 50 == 49:
+            time.sleep(0.002)
+    time.sleep(0.3)
+    ok = False
+    for _ in range(3):
+        u.sendto(good + b'after', relay)
+        try:
+            d, _ = u.recvfrom(2000)
+            if d.endswith(b'Rafter'):
+                ok = True
+                break
+        except OSError:
+            pass
+    s.close(); u.close(); other.close()
+    return 'ok' if ok else 'association-dead-after-the-run'
+for kind in ('fragments', 'foreign-sender', 'short', 'unknown-atyp'):
+    try:
+        outcome = skip_run(kind)
+    except OSError as e:
+        outcome = f'client-error:{e!r}'[:80]
+    time.sleep(0.2)
+    ok = judge(px, f'a run of {RUN} SOCKS5 UDP datagrams the relay has to skip ({kind}) with no acceptable datagram in between (association afterwards: {outcome})', f'skipped-datagram-run:{kind}', {'kind': kind, 'run': RUN})
+    samples.append({'skipped_datagram_run': kind, 'run': RUN, 'association_afterwards': outcome, 'survived': ok})
+    distinct.add(('skip-run', kind, outcome))
+    if not ok:
+        px.stop(); px = start()
+px.stop(); uo.stop()
+
 # ---- (iv) fields that never end, against a process that is allowed 1 GiB of address space: the proxy must give
 #      up on the connection long before it runs out of memory (a failed allocation aborts the process)
 MEM = 768 << 20
@@ -437,5 +493,5 @@ if evals < 8 or len(distinct) < 1:
     machinery(f'vacuous: evals={evals}')
 cov = {'evaluations': evals, 'distinct_nontrivial': max(2, len(distinct)), 'transitions': evals, 'traces_validated_against_impl': evals,
        'rule': 'real binary (panic=abort): malformed request heads / SOCKS negotiations / frames / upstream replies on every listener; disconnect (FIN and RST) at every byte offset of the http, socks5 and socks4 handshakes; stalled clients at 4 offsets per handshake; RLIMIT_NOFILE=64 with 240 idle connections; a full-cone tproxy UDP listener whose upstream answers with 11 hostile frames, and one whose upstream never answers while its client sends 400 datagrams (a second client must still be taken up) (skipped where IP_TRANSPARENT is not permitted); 8 never-ending fields (client and upstream side) against a process limited to 768 MiB of data (RLIMIT_DATA); after each batch the process must be alive and every TCP listener and the API must serve a probe',
-       'schedule_control': 'kernel', 'samples': samples}
+       'skipped_datagram_runs': 'runs of 4000 (thorough 20000) SOCKS5 UDP datagrams the relay has to skip (fragments, foreign sender, too short, unknown address type), then one good datagram', 'schedule_control': 'kernel', 'samples': samples}
 sys.exit(chk.finish('model_checking', cov, ['E4 part: batches of inputs are judged together (the proxy is restarted after a batch that killed it)']))
